@@ -519,7 +519,7 @@ func (l *c07Local) writes(kind string, sizes []int) {
 // c07Lazy defers the (expensive) formatting of a value to the moment a violation is actually reported.
 type c07Lazy struct{ v any }
 
-func (c *Ctx) c07V(kind, op string, input []byte, d map[string]any) {
+func c07Resolve(d map[string]any) map[string]any {
 	for k, v := range d {
 		switch v := v.(type) {
 		case c07Lazy:
@@ -530,7 +530,15 @@ func (c *Ctx) c07V(kind, op string, input []byte, d map[string]any) {
 			d[k] = trunc(fmt.Sprint(v), 400)
 		}
 	}
-	c.Violate(kind, op, input, d)
+	return d
+}
+
+func (c *Ctx) c07V(kind, op string, input []byte, d map[string]any) {
+	c.Violate(kind, op, input, c07Resolve(d))
+}
+
+func (c *Ctx) c07P(op string, input []byte, p any, d map[string]any) {
+	c.Panic(op, input, p, c07Resolve(d))
 }
 
 func c07Detail(kv ...any) map[string]any {
@@ -596,7 +604,7 @@ func (c *Ctx) c07Marshal(l *c07Local, r *rand.Rand, sh c07Shape, o c07Opt, maxFa
 	var want []byte
 	var err error
 	if p := guard(func() { want, err = json.Marshal(sh.v, opts...) }); p != nil {
-		c.Panic("Marshal:"+op, nil, p, nil)
+		c.c07P("Marshal:"+op, nil, p, nil)
 		return
 	}
 	if err != nil {
@@ -621,7 +629,7 @@ func (c *Ctx) c07Marshal(l *c07Local, r *rand.Rand, sh c07Shape, o c07Opt, maxFa
 		}
 		bb.WriteString(pre)
 		if p := guard(func() { err = json.MarshalWrite(bb, sh.v, opts...) }); p != nil {
-			c.Panic("MarshalWrite/bytes.Buffer:"+op, nil, p, nil)
+			c.c07P("MarshalWrite/bytes.Buffer:"+op, nil, p, nil)
 			continue
 		}
 		if err != nil {
@@ -634,7 +642,7 @@ func (c *Ctx) c07Marshal(l *c07Local, r *rand.Rand, sh c07Shape, o c07Opt, maxFa
 	// P1 plain writer
 	w := &c07Writer{}
 	if p := guard(func() { err = json.MarshalWrite(w, sh.v, opts...) }); p != nil {
-		c.Panic("MarshalWrite/plain:"+op, nil, p, nil)
+		c.c07P("MarshalWrite/plain:"+op, nil, p, nil)
 	} else if err != nil {
 		c.c07V("error", "MarshalWrite/plain:"+op, nil, det("err", err.Error()))
 	} else {
@@ -666,7 +674,7 @@ func (c *Ctx) c07Marshal(l *c07Local, r *rand.Rand, sh c07Shape, o c07Opt, maxFa
 				err = json.MarshalEncode(enc, sh.v, opts...)
 			}
 		}); p != nil {
-			c.Panic("MarshalEncode/"+vname+":"+op, nil, p, nil)
+			c.c07P("MarshalEncode/"+vname+":"+op, nil, p, nil)
 			continue
 		}
 		if err != nil {
@@ -710,7 +718,7 @@ func (c *Ctx) c07Marshal(l *c07Local, r *rand.Rand, sh c07Shape, o c07Opt, maxFa
 					err = json.MarshalWrite(fw, sh.v, opts...)
 				}
 			}); p != nil {
-				c.Panic(ename+"/faulty:"+op, nil, p, det("fault_at", j, "mode", mode))
+				c.c07P(ename+"/faulty:"+op, nil, p, det("fault_at", j, "mode", mode))
 				continue
 			}
 			c.Case(op+"/fault", true)
@@ -748,7 +756,7 @@ func (c *Ctx) c07Marshal(l *c07Local, r *rand.Rand, sh c07Shape, o c07Opt, maxFa
 			w2want, _ = json.Marshal(small)
 			err = json.MarshalWrite(w2, small)
 		}); p != nil {
-			c.Panic("MarshalWrite/after-fault:"+op, nil, p, nil)
+			c.c07P("MarshalWrite/after-fault:"+op, nil, p, nil)
 		} else if err != nil {
 			c.c07V("error", "MarshalWrite/after-fault:"+op, nil, det("err", err.Error()))
 		} else {
@@ -767,7 +775,7 @@ type c07Step struct {
 }
 
 // c07Script turns JSON text (one or more top-level values) into a mix of WriteToken / WriteValue steps.
-func c07Script(r *rand.Rand, text []byte, pValue float64) []c07Step {
+func c07Script(r *rand.Rand, text []byte, pValue float64) ([]c07Step, error) {
 	dec := jsontext.NewDecoder(bytes.NewReader(text), jsontext.AllowDuplicateNames(true))
 	var steps []c07Step
 	for {
@@ -778,18 +786,18 @@ func c07Script(r *rand.Rand, text []byte, pValue float64) []c07Step {
 		if k != '}' && k != ']' && r.Float64() < pValue {
 			v, err := dec.ReadValue()
 			if err != nil {
-				fail("c07 script: ReadValue: %v", err)
+				return nil, err
 			}
 			steps = append(steps, c07Step{val: v.Clone(), depth: dec.StackDepth()})
 			continue
 		}
 		t, err := dec.ReadToken()
 		if err != nil {
-			fail("c07 script: ReadToken: %v", err)
+			return nil, err
 		}
 		steps = append(steps, c07Step{tok: t.Clone(), depth: dec.StackDepth()})
 	}
-	return steps
+	return steps, nil
 }
 
 func (s c07Step) apply(enc *jsontext.Encoder) error {
@@ -875,11 +883,20 @@ type c07Trace struct {
 }
 
 func (c *Ctx) c07Tokens(l *c07Local, r *rand.Rand, text []byte, o c07Opt, expect []byte, nsched int, what string) {
-	steps := c07Script(r, text, c07Pick(r, []float64{0, 0.1, 0.5}))
+	op := "Encoder/" + what + "/" + o.name
+	var steps []c07Step
+	var serr error
+	if p := guard(func() { steps, serr = c07Script(r, text, c07Pick(r, []float64{0, 0.1, 0.5})) }); p != nil {
+		c.c07P("Decoder(on Marshal output):"+op, text, p, nil)
+		return
+	}
+	if serr != nil { // Marshal's own output does not tokenize: the retraction logic corrupted it
+		c.c07V("marshal-output-not-json", "Marshal", text, c07Detail("err", serr.Error(), "text", text))
+		return
+	}
 	if len(steps) == 0 {
 		return
 	}
-	op := "Encoder/" + what + "/" + o.name
 	ref := c07RefPointers(steps)
 	l.hit("token-script-steps:" + c07SizeBucket(len(steps)))
 	det := func(kv ...any) map[string]any {
@@ -938,7 +955,7 @@ func (c *Ctx) c07Tokens(l *c07Local, r *rand.Rand, text []byte, o c07Opt, expect
 				c07export.PutBufferedEncoder(enc)
 			}
 		}); p != nil {
-			c.Panic(op+":"+name, nil, p, det())
+			c.c07P(op+":"+name, nil, p, det())
 			ok = false
 		}
 		return
@@ -1151,7 +1168,7 @@ func (c *Ctx) c07Trims(or *Oracle, useOracle bool) {
 				tb2 = jsonwire.TrimSuffixByte(b, ':')
 				hs = jsonwire.HasSuffixByte(b, '"')
 			}); p != nil {
-				c.Panic("jsonwire.TrimSuffix*", b, p, nil)
+				c.c07P("jsonwire.TrimSuffix*", b, p, nil)
 				continue
 			}
 			c.Case("trim"+string(b), len(b) >= 2)
@@ -1202,7 +1219,7 @@ func (c *Ctx) c07Trims(or *Oracle, useOracle bool) {
 		in := append(append([]byte{}, p...), q...)
 		var got []byte
 		if pn := guard(func() { got = jsonwire.TrimSuffixString(in) }); pn != nil {
-			c.Panic("jsonwire.TrimSuffixString", in, pn, nil)
+			c.c07P("jsonwire.TrimSuffixString", in, pn, nil)
 			continue
 		}
 		c.Case("trimspec"+string(in), true)
@@ -1282,7 +1299,7 @@ func (c *Ctx) c07Direct(or *Oracle, useOracle bool) {
 								must(enc.WriteToken(jsontext.EndObject))
 							}
 						}); p != nil {
-							c.Panic(opn, nil, p, nil)
+							c.c07P(opn, nil, p, nil)
 							continue
 						}
 						c.Case(opn, true)
@@ -1292,10 +1309,10 @@ func (c *Ctx) c07Direct(or *Oracle, useOracle bool) {
 						emptyVal := val == "null" || val == `""` || val == "{}" || val == "[]"
 						endsEmpty := bytes.HasSuffix(compact, []byte("ll")) || bytes.HasSuffix(compact, []byte(`""`)) || bytes.HasSuffix(compact, []byte("{}")) || bytes.HasSuffix(compact, []byte("[]"))
 						if flushedAfterOpen || flushedAfterName {
-							c.c07V("flush-not-suppressed", opn, nil, c07Detail("after_open", flushedAfterOpen, "after_name", flushedAfterName))
+							c.c07V("flush-not-suppressed", "encoderState.Flush(direct)", nil, c07Detail("case", opn, "after_open", flushedAfterOpen, "after_name", flushedAfterName))
 						}
 						if flushedAfterValue == endsEmpty { // avoidFlush: suppressed iff the last two bytes are ll "" {} []
-							c.c07V("avoidflush-differs", opn, nil, c07Detail("flushed_after_value", flushedAfterValue, "value_ends_like_empty", endsEmpty))
+							c.c07V("avoidflush-differs", "encoderState.Flush(direct)", nil, c07Detail("case", opn, "flushed_after_value", flushedAfterValue, "value_ends_like_empty", endsEmpty))
 						}
 						if flushedAfterValue {
 							c.Hit("direct:flushed-after-nonempty-value")
@@ -1303,7 +1320,7 @@ func (c *Ctx) c07Direct(or *Oracle, useOracle bool) {
 						}
 						c.Hit("direct:unwrite-attempted")
 						if pr.ok != emptyVal {
-							c.c07V("empty-detect", opn, pr.before, c07Detail("unwrote", pr.ok, "value_is_empty", emptyVal))
+							c.c07V("empty-detect", "encoderState.UnwriteEmptyObjectMember(direct)", pr.before, c07Detail("case", opn, "unwrote", pr.ok, "value_is_empty", emptyVal))
 						}
 						rb, rok := c07RefUnwriteEmpty(pr.before)
 						if rok != pr.ok || !bytes.Equal(rb, pr.after) {
@@ -1322,7 +1339,7 @@ func (c *Ctx) c07Direct(or *Oracle, useOracle bool) {
 							we.WriteValue(jsontext.Value(`"z"`))
 							we.WriteValue(jsontext.Value(`1`))
 							we.WriteToken(jsontext.EndObject)
-							c.c07CheckEq("unwrite-stream", opn, want.Bytes(), w.acc, c07Detail("writes", w.sizes))
+							c.c07CheckEq("unwrite-stream", "encoderState.UnwriteEmptyObjectMember(direct)", want.Bytes(), w.acc, c07Detail("case", opn, "writes", w.sizes))
 						}
 						probes = append(probes, pr)
 					}
@@ -1369,19 +1386,27 @@ func runC07(c *Ctx) {
 	type job struct{ lo, hi int }
 	jobs := make(chan job, 1024)
 	var wg sync.WaitGroup
+	var workerPanic atomic.Pointer[any]
 	locals := make([]*c07Local, workers)
 	for wi := 0; wi < workers; wi++ {
 		locals[wi] = newC07Local()
 		wg.Add(1)
 		go func(wi int) {
 			defer wg.Done()
+			defer func() {
+				if r := recover(); r != nil {
+					workerPanic.CompareAndSwap(nil, &r)
+					for range jobs { // drain so that the producer does not block
+					}
+				}
+			}()
 			l := locals[wi]
 			for jb := range jobs {
 				r := rand.New(rand.NewPCG(c.Seed, 0xC07<<32+uint64(jb.lo)))
 				for size := jb.lo; size < jb.hi; {
 					for which := 0; which < c07NumShapes; which++ {
-						if !c.Thorough() && which != size%c07NumShapes && r.IntN(4) != 0 {
-							continue // quick: every size gets its "own" shape plus a random third of the others
+						if !c.Thorough() && which != 0 && which != 7 && which != size%c07NumShapes && r.IntN(4) != 0 {
+							continue // quick: every size gets the swept-pad record, the bare string, its "own" shape and a random quarter of the others
 						}
 						sh := c07Shapes(r, size, which)
 						for oi, o := range opts {
@@ -1429,6 +1454,9 @@ func runC07(c *Ctx) {
 	}
 	close(jobs)
 	wg.Wait()
+	if p := workerPanic.Load(); p != nil {
+		panic(*p) // re-raise in the main goroutine (machinery failures exit 2 there)
+	}
 	c.Note("phase sweep: %.1fs", time.Since(t0).Seconds())
 	t0 = time.Now()
 
